@@ -127,7 +127,8 @@ def audit_axioms(prop, module, theorems, log):
     os.makedirs(WORK, exist_ok=True)
     path = os.path.join(WORK, f"Audit_{prop}.lean")
     with open(path, "w") as f:
-        f.write(f"import {module}\n")
+        for m in (module if isinstance(module, (list, tuple)) else [module]):
+            f.write(f"import {m}\n")
         for t in theorems:
             f.write(f"#print axioms {t}\n")
     rc, out = sh(["lake", "env", "lean", path], cwd=LEAN, timeout=1200)
